@@ -104,6 +104,37 @@ def run(ctx):
         if m is not None and codecio.canon_model(m) != i:
             s3.disagree(meta, i, m)
     streams.append(s3)
+
+    # numbers of every kind, in sequences where numerically equal values of different type / notation follow each other
+    # (1, 1.0, True, Decimal('1.0'), Decimal('1.00') ...): each is written as its own decimal text, whatever was
+    # encoded before in this process
+    from decimal import Decimal
+    s4 = Stream("numbers")
+    pool = [0, 1, -1, 7, 10, 255, 1.0, 0.0, -1.0, 2.5, 2.50, 1e3, 1e-3, 0.1, True, False, Decimal("1"), Decimal("1.0"),
+            Decimal("1.00"), Decimal("2.5"), Decimal("2.50"), Decimal("0"), Decimal("0.0"), Decimal("-7"), 1000, 1000.0,
+            Decimal("1E+3"), 12345678901234567890, 3.14159, -0.0]
+    lines, impls, metas = [], [], []
+    for _ in range(4000 if ctx.thorough else 600):
+        enc = r.choice(codecio.ENCODINGS)
+        vals = [r.choice(pool) for _ in range(r.choice([1, 2, 3, 5]))]
+        rec = [vals[0], vals[1:]] if len(vals) > 2 and r.random() < 0.5 else list(vals)
+        if len(rec) == 2 and isinstance(rec[1], list) and len(rec[1]) == 1:
+            rec = list(vals)
+        case = {"encoding": enc, "record": repr(rec)}
+        s4.case(case, nontrivial=len(set(map(repr, vals))) > 1 and len(set(vals)) < len(set(map(repr, vals))))
+        ok, raw = codecio.ok_or_err(codec.encode_record, rec, enc)
+        exp = b"|".join(b"^".join(str(x).encode() for x in f) if isinstance(f, list) else str(f).encode() for f in rec)
+        if not ok or raw != exp:
+            s4.fail(dict(case, encoded=hexb(raw) if ok else raw, expected=hexb(exp)),
+                    "a number is not written as its own decimal text", "numbers/text")
+        lines.append(codecio.model_line("er", enc, rec))
+        impls.append("ok " + hexb(raw) if ok else "err")
+        metas.append(case)
+    model = common.drive(lines) if ctx.driver_ok else [None] * len(lines)
+    for l, i, m, meta in zip(lines, impls, model, metas):
+        if m is not None and codecio.canon_model(m) != i:
+            s4.disagree(meta, i, m)
+    streams.append(s4)
     return streams
 
 
